@@ -81,9 +81,12 @@ func (u *UseCase) UpdateTx(ctx context.Context, oldTxId, newTxId string, filter 
 		return
 	}
 
+	// the numbers the versions are published under are drawn in one step: a snapshot
+	// that begins meanwhile is either older than all of them or younger than all of them
+	first := sequence.NextN(len(files))
 	err = u.fileRepo.RunTransaction(ctx, func(ctx context.Context) error {
 		for i := range files {
-			files[i].Seq = sequence.Next()
+			files[i].Seq = first + sequence.Seq(i)
 			err = u.fileRepo.Set(ctx, files[i])
 			if err != nil {
 				return fmt.Errorf("store to tx: %w", err)
